@@ -23,7 +23,7 @@ Lemma inv_spawn_gen s a x r below body cap' gj js own' st0 c' st' clk' pre :
   (exists extra, js = joins s ++ extra) -> gj < length js -> j_ostart (nth gj js djoin) = a_start x ->
   (forall jr, In jr js -> j_ostart jr <= clock s) ->
   (forall n g, In (n, g) own' -> g < length js /\ j_ostart (nth g js djoin) = a_start x) ->
-  (forall g, g < length js -> j_kind (nth g js djoin) = JFut ->
+  (forall g, g < length js -> is_set (j_kind (nth g js djoin)) = false ->
      j_ftask (nth g js djoin) < S (length (tasks s)) /\
      t_join (nth (j_ftask (nth g js djoin)) (tasks s ++ [TR body cap' gj st0]) dtask) = g) ->
   ((pre = [] /\ st0 = TQueued /\ clk' = clock s /\
@@ -216,11 +216,11 @@ Proof.
       rewrite nth_app_old by exact R. exact O. }
     unfold own' in Hng. destruct reuse as [g0|] eqn:E; [apply Hold; exact Hng|].
     destruct Hng as [Heq|H]; [inversion Heq; subst; exact F1 | apply Hold; exact H]. }
-  assert (F4 : forall st0 g, g < length js -> j_kind (nth g js djoin) = JFut ->
+  assert (F4 : forall st0 g, g < length js -> is_set (j_kind (nth g js djoin)) = false ->
                j_ftask (nth g js djoin) < S (length (tasks s)) /\
                t_join (nth (j_ftask (nth g js djoin)) (tasks s ++ [TR body cap' gj st0]) dtask) = g).
   { intros st0 g Hg Hk.
-    assert (Hold : g < length (joins s) -> j_kind (nth g (joins s) djoin) = JFut ->
+    assert (Hold : g < length (joins s) -> is_set (j_kind (nth g (joins s) djoin)) = false ->
                    j_ftask (nth g (joins s) djoin) < S (length (tasks s)) /\
                    t_join (nth (j_ftask (nth g (joins s) djoin)) (tasks s ++ [TR body cap' gj st0]) dtask) = g).
     { intros R K. destruct (i_fut s I g R K) as [A B]. split; [unfold join_of in A; lia|]. unfold join_of in A. rewrite nth_app_old by exact A. exact B. }
